@@ -1,5 +1,5 @@
 """C12 secrets: theorems in coq/Props/PropC12.v about Pure/Token.v, Code.v,
-ApiKey.v, Basic.v; correspondence against the REAL token / code / basic
+ApiKey.v, Basic.v (bcrypt = three-valued oracle over arbitrary stored bytes); correspondence against the REAL token / code / basic
 authenticators (harness/ext/c12*.go) and checkAPIKey (package main, overlay
 driver), in two phases: the implementation runs first and reports, next to
 its answer, the clock readings and the real HMAC values of exactly the data
@@ -766,7 +766,10 @@ def run(ctx):
                 "with CR/LF, '=', '+', '/'; reset codes: seeded random sequences of GenSecret / right / wrong / literal guesses / raw "
                 "secrets / time steps over 1..3 credentials (incl. the '%' vs '/' key collision) compared op by op and on the final "
                 "cache; basic: sequences of AddRecord / Authenticate / UpdateRecord / time steps over logins differing in case, "
-                "compared op by op and on the final table; strings.ToLower idempotence on all 0x110000 code points. "
+                "compared op by op and on the final table; basic above store anomalies: one row whose secret column is overwritten (RAW) in turn "
+                "by real cost-4/5 bcrypt hashes of known passwords and every anomaly class (empty, nil, truncations, version / prefix / cost bytes, "
+                "trailing bytes, bad salt, foreign schemes, plaintext, random bytes), each followed by logins with right / empty / wrong / 72+ byte "
+                "passwords and the stored bytes themselves; strings.ToLower idempotence on all 0x110000 code points. "
                 "non-trivial = accepted by the implementation",
         "samples": [{"case": c[:300], "impl": table[c][:300]} for c in (cases[:2] + ctx.rng.sample(cases, min(6, len(cases))))] if cases else [],
         "traces_validated_against_impl": len(cases), "correspondence_mismatches": len(open_mism),
@@ -775,7 +778,7 @@ def run(ctx):
         "trusted_base": [
             "HMAC-SHA256 / HMAC-MD5 unforgeability: the theorems reduce every acceptance of a non-issued token or key to a valid (data, MAC) pair the signer never produced; that such a pair cannot be found without the key is assumed, not proved",
             "the MAC is an arbitrary function in Coq; on each run the model is evaluated with the real HMAC values the drivers computed with crypto/hmac for the data the authenticator saw",
-            "bcrypt: verify is an arbitrary function in Coq; the run instantiates it as equality of passwords (CompareHashAndPassword(GenerateFromPassword(p), q) = nil iff p = q for passwords below 72 bytes)",
+            "bcrypt: CompareHashAndPassword is an arbitrary three-valued function cmp (match / mismatch / error class) in Coq; on each run the model is evaluated with the outcomes the driver computed with golang.org/x/crypto/bcrypt for exactly the (stored bytes, password) pairs Authenticate may have to compare, and with the bytes the store holds after each AddRecord / UpdateRecord; that match means right password (bcrypt correctness, passwords below 72 bytes) is assumed; only the header check newFromHash is modelled (bc_header), compared with bcrypt.Cost on every planted secret",
             "strings.ToLower and the login/password policies are arbitrary functions in Coq (idempotence of lower-casing is a premise, checked here on every code point); the run uses the values computed by Go",
             "harness/ext/c12*.go: in-memory fakes of store.PCache and store.Users written from the MySQL adapter's contract (INSERT vs REPLACE, createdat, unique indices); the SQL adapters themselves are not executed",
             "wall clock: read by the driver around each call and passed to the model; expiry decisions are kept >= 1 s away from the boundary by construction of the cases",
